@@ -73,6 +73,7 @@ def check(run):
         run.guard("C03.7.option-split", cfg, lambda: rule_option_split(run, F, cfg))
         run.guard("C03.8.implicit-types", cfg, lambda: rule_implicit_types(run, F, cfg))
         run.guard("C03.1.option-chain", cfg + "/polarity", lambda: rule_polarity(run, F, cfg))
+        run.guard("C03.1.option-chain", cfg + "/payloads", lambda: rule_payloads(run, F, cfg))
         b = run.borrow("C05", only=r"field:(mask|opt_domains|opt_not_domains)\b|key:",
                        why="rules whose options differ must not be fused into one")
         run.guard("C03.via.C05.1.fusion-key", cfg, lambda: _C05.rule_key(b, F, cfg))
@@ -774,3 +775,49 @@ def rule_polarity(run, F, cfg):
             folds.append(e[:60])
     run.ob("C03.1.option-chain", "domain-unions-are-or-folds", folds == ["or", "or"],
            f"opt_domains_union / opt_not_domains_union are bitwise-OR folds of the hashes ({folds})", config=cfg)
+
+
+def rule_payloads(run, F, cfg):
+    """String-valued options keep their value as written: `$tag=`, `$csp=`, `$redirect=`, `$redirect-rule=`,
+    `$removeparam=` and the entries of `$domain=` are compared verbatim elsewhere (enabled tags, CSP text, resource
+    names, parameter names, hashed initiator hostnames), so normalising them on the rule side only (lower-casing,
+    trimming `www.`, ...) makes the two sides disagree."""
+    f = F.fn("filters::abstract_network::parse_filter_options")
+    DENY = r"to_ascii_lowercase|to_lowercase|to_ascii_uppercase|to_uppercase|core::str::trim\(|str::replace|strip_prefix\(.*\"www|trim_start_matches\([^()]*\"www"
+    bad = []
+    seen = set()
+    for b, i, st in f.statements():
+        if st["k"] == "assign" and st["rv"]["k"] == "agg" and st["rv"].get("variant") in ("Tag", "Csp", "Redirect", "RedirectRule", "Removeparam") \
+                and str(st["rv"].get("adt", "")).endswith("NetworkFilterOption"):
+            seen.add(st["rv"]["variant"])
+            for o in st["rv"]["ops"]:
+                e = f.expr_operand(o) + " " + " ".join(sorted(f.deep_origins(o)))
+                if re.search(DENY, e):
+                    bad.append((st["rv"]["variant"], re.search(DENY, e).group(0)))
+    run.ob("C03.1.option-chain", "string-payloads-verbatim:parse_filter_options", not bad and len(seen) == 5,
+           f"the value of tag / csp / redirect / redirect-rule / removeparam is stored as written ({sorted(seen)}; transformed: {bad})",
+           site=f.loc(0), config=cfg)
+    p = F.fn("filters::network::NetworkFilter::parse")
+    cl = [c for c in F.closures_of(p.name) if len(c.calls(r"::set$")) > 10]
+    if len(cl) != 1:
+        return
+    c = cl[0]
+    stores = {}
+    for b, i, st in c.statements():
+        if st["k"] == "assign":
+            m = re.search(r"up:(tag|modifier_option)$", c.vexpr_place(st["pl"]))
+            if m:
+                v = c.expr_rvalue(st["rv"])
+                if v != "up:" + m.group(1):
+                    stores.setdefault(m.group(1), set()).add(v)
+    want = {"tag": {"std::option::Option::Some{0: arg:option@Tag.0}"},
+            "modifier_option": {"std::option::Option::Some{0: arg:option@Redirect.0}", "std::option::Option::Some{0: arg:option@RedirectRule.0}",
+                                "std::option::Option::Some{0: arg:option@Removeparam.0}", "arg:option@Csp.0"}}
+    norm = {k: {re.sub(r"arg:\w+@", "arg:option@", x) for x in v} for k, v in stores.items()}
+    run.ob("C03.1.option-chain", "string-payloads-verbatim:parse", norm == want,
+           f"NetworkFilter::parse stores the option payloads themselves in tag / modifier_option ({norm})", site=c.loc(0), config=cfg)
+    hashed = [re.sub(r"arg:\w+@", "arg:option@", c.expr_call(t)) for b, t in c.calls(r"^utils::fast_hash$")]
+    run.ob("C03.1.option-chain", "domain-entries-hashed-verbatim",
+           hashed == ["utils::fast_hash(<std::vec::IntoIter<T, A> as std::iter::Iterator>::next(arg:option@Domain.0)@Some.0.1)"],
+           f"each `$domain=` entry is hashed as written (the request side hashes the initiator's hostname labels verbatim): {hashed}",
+           site=c.loc(0), config=cfg)
